@@ -46,6 +46,7 @@ class Target:
 
     def __init__(self):
         self.calls = []  # (kind, arg, thread id)
+        self.finished = set()  # (kind, arg) of coroutine bodies that have ended
         self.lock = threading.Lock()
 
     def _rec(self, kind, arg):
@@ -54,20 +55,28 @@ class Target:
 
     async def coro_value(self, arg):
         self._rec("coro_value", arg)
-        await asyncio.sleep(0)
-        return ("value", arg)
+        try:
+            await asyncio.sleep(0)
+            return ("value", arg)
+        finally:
+            self.finished.add(("coro_value", arg))
 
     async def coro_raise(self, arg):
         self._rec("coro_raise", arg)
+        self.finished.add(("coro_raise", arg))
         raise Boom(arg)
 
     async def coro_raise_base(self, arg):
         self._rec("coro_raise_base", arg)
-        await asyncio.sleep(0)
+        try:
+            await asyncio.sleep(0)
+        finally:
+            self.finished.add(("coro_raise_base", arg))
         raise Fatal(arg)
 
     async def coro_cancelled(self, arg):
         self._rec("coro_cancelled", arg)
+        self.finished.add(("coro_cancelled", arg))
         raise asyncio.CancelledError()
 
     def plain_none(self, arg):
@@ -112,10 +121,11 @@ class RawLoopThread:
         self.start()
 
 
-async def drive_calls(proxy, calls, out, caller, await_results=True, pre=None):
+async def drive_calls(proxy, calls, out, caller, await_results=True, pre=None, world=None):
     """Issue calls from the current loop; collect what the caller sees."""
     me = threading.get_ident()
     futs = []
+    kinds = {c[0]: (c[1], c[2]) for c in calls}
     for cid, kind, arg, lookup in calls:
         t0 = time.monotonic()
         try:
@@ -145,6 +155,24 @@ async def drive_calls(proxy, calls, out, caller, await_results=True, pre=None):
                 f.cancel()
         return
     for cid, f in futs:
+        f = asyncio.ensure_future(f)
+        if world is not None:
+            done, _ = await asyncio.wait([f], timeout=3)
+            if not done and kinds[cid] in world["target"].finished:
+                # The body has ended on the owner's loop.  Whatever relays its outcome was queued on the owner loop
+                # before anything we submit now, and hands over to this loop with call_soon_threadsafe: after two round
+                # trips through the owner loop and a few iterations here the future is done - or it never will be.
+                try:
+                    for _ in range(2):
+                        await asyncio.wait_for(asyncio.wrap_future(asyncio.run_coroutine_threadsafe(_ident(), world["owner_loop"])), 5)
+                    for _ in range(5):
+                        await asyncio.sleep(0)
+                    if not f.done():
+                        out[cid] = ("never-delivered", None, me)
+                        f.cancel()
+                        continue
+                except asyncio.TimeoutError:
+                    pass
         try:
             val = await asyncio.wait_for(f, 15)
             out[cid] = ("result", val, threading.get_ident())
@@ -218,9 +246,10 @@ async def run_script(plan, r: Result):
             n0 = len(target.calls)
             e0 = len(errors)
             aw = state != "stopped"
-            jobs = [drive_calls(proxy, by_caller["main"], out, "main", aw, pre)]
+            world = {"target": target, "owner_loop": owner_loop} if state == "running" else None
+            jobs = [drive_calls(proxy, by_caller["main"], out, "main", aw, pre, world)]
             if by_caller["second"]:
-                jobs.append(second.run_coroutine_threadsafe(drive_calls(proxy, by_caller["second"], out, "second", aw, pre)))
+                jobs.append(second.run_coroutine_threadsafe(drive_calls(proxy, by_caller["second"], out, "second", aw, pre, world)))
             if by_caller["owner"]:
                 jobs.append(owner.run_coroutine_threadsafe(drive_calls(proxy, by_caller["owner"], out, "owner", True, pre)))
             await asyncio.gather(*jobs)
@@ -260,6 +289,10 @@ async def run_script(plan, r: Result):
                     continue
                 if state == "stopped":
                     continue  # only thread identity is asserted (above): nothing may run anywhere else
+                if got is not None and got[0] == "never-delivered":
+                    r.bad("C20:coroutine-outcome-never-delivered" + (":base-exception" if kind == "coro_raise_base" else ""),
+                          f"{kind}({arg}) from {caller}: the body ended on the owner's loop, the caller's future never completed")
+                    return crossed
                 n = execd.get((kind, arg), 0)
                 if n != 1:
                     r.bad("C20:not-executed-exactly-once", f"{kind}({arg}) from {caller}: executed {n} times")
